@@ -736,7 +736,20 @@ func (g *FuncGen) trField(env *Env, x *EField) Val {
 			at := f.Type().Underlying().(*types.Array)
 			return Val{T: fmt.Sprintf("(select %s %s)", g.heapOf(env.cur, c.elemClass(at.Elem())), c.subRef(name, f, base.T)), S: c.sortOf(f.Type()), GT: f.Type()}
 		}
-		return Val{T: fmt.Sprintf("(select %s %s)", g.heapOf(env.cur, c.fieldClass(name, f)), base.T), S: c.sortOf(f.Type()), GT: f.Type()}
+		hv := g.heapOf(env.cur, c.fieldClass(name, f))
+		rv := Val{T: fmt.Sprintf("(select %s %s)", hv, base.T), S: c.sortOf(f.Type()), GT: f.Type()}
+		if strings.HasSuffix(hv, "@0") && g.entry != nil && !strings.Contains(rv.T, "q_") && (rv.S == SSlice || rv.S == SRef) {
+			// the entry heap is closed: references stored in it denote objects that existed at entry
+			key := "wf:" + rv.T
+			if !c.declared[key] {
+				c.declared[key] = true
+				saved := g.curBlock
+				g.curBlock = nil
+				g.assumeWellTyped(rv, f.Type(), g.entry)
+				g.curBlock = saved
+			}
+		}
+		return rv
 	}
 	if st, name, ok := c.structOf(t); ok {
 		c.sortOf(t)
@@ -924,6 +937,17 @@ func (g *FuncGen) trCall(env *Env, x *ECall) Val {
 		}
 		t, _ := g.specType(tyText, env.pkg)
 		return Val{T: eq(fmt.Sprintf("(i_typ %s)", a.T), fmt.Sprint(c.typeTag(t))), S: SBool, GT: types.Typ[types.Bool]}
+	case "arrayOf":
+		// arrayOf(s): identity of the backing array of slice s (0 for a nil slice)
+		a := g.tr(env, x.Args[0])
+		if a.S != SSlice {
+			g.unsup("arrayOf needs a slice")
+		}
+		return Val{T: fmt.Sprintf("(s_arr %s)", a.T), S: SInt}
+	case "isNaN", "isInf":
+		a := g.tr(env, x.Args[0])
+		op := map[string]string{"isNaN": "fp.isNaN", "isInf": "fp.isInfinite"}[x.Fun]
+		return Val{T: fmt.Sprintf("(%s %s)", op, a.T), S: SBool, GT: types.Typ[types.Bool]}
 	case "zero":
 		// zero(T): the zero value of Go type T
 		t, _ := g.specType(x.Args[0].String(), env.pkg)
